@@ -17,8 +17,7 @@ Requests
   tree  = prefix tokens joined by `|` (see `parseR`); a text token is the wire format of Drv/C02 (`decText?`)
 
 Static domain (anything else answers `unmodelled`): every text is consistent (`Text.Inv`), panel / rule titles are one-line simple
-texts, box names exist, tables have at least one column and the same number of cells in every column, `Columns` has no explicit
-`width`, a `cast` does not directly wrap another `cast`, tables and columns only under a UTF-8, non-legacy console.
+texts, box names exist, tables have the same number of cells in every column, a `cast` does not directly wrap another `cast`.
 Dynamic domain: every request is evaluated under two different poisons (see Model/Layout.lean) and answers `unmodelled` when the
 results differ.
 -/
@@ -121,7 +120,7 @@ partial def parseR : List String → Option (R × List String)
   | "PBAR" :: tn :: td :: cn :: cd :: wd :: pu :: tmn :: tmd :: ts =>
     some (.progressBar { total := ⟨decInt tn, decNat td⟩, completed := ⟨decInt cn, decNat cd⟩, width := decOptInt wd,
                          pulse := decBool pu, time := ⟨decInt tmn, decNat tmd⟩ }, ts)
-  | "TABLE" :: box :: sh :: sf :: se :: sl :: lead :: pt :: pr :: pb :: pl :: pe :: cp :: ex :: wd :: mw :: title :: cap :: tj :: cj
+  | "TABLE" :: box :: sb :: sh :: sf :: se :: sl :: lead :: pt :: pr :: pb :: pl :: pe :: cp :: ex :: wd :: mw :: title :: cap :: tj :: cj
       :: nsec :: ts => do
     let box ← boxIndex box
     let (secs, ts) ← takeBools (decNat nsec) ts
@@ -130,7 +129,7 @@ partial def parseR : List String → Option (R × List String)
     match ts with
     | ncols :: ts =>
       let (cols, ts) ← parseCols (decNat ncols) ts
-      pure (.table { box := box, showHeader := decBool sh, showFooter := decBool sf, showEdge := decBool se, showLines := decBool sl,
+      pure (.table { box := box, safeBox := decOptBool sb, showHeader := decBool sh, showFooter := decBool sf, showEdge := decBool se, showLines := decBool sl,
                      leading := decNat lead, padding := ⟨decNat pt, decNat pr, decNat pb, decNat pl⟩, padEdge := decBool pe,
                      collapsePadding := decBool cp, expand := decBool ex, width := decOptNat' wd, minWidth := decOptNat' mw,
                      title := title, caption := cap, titleJustify := decJ tj, captionJustify := decJ cj, rowEndSection := secs } cols, ts)
@@ -215,15 +214,15 @@ partial def staticOk (env : Env) : R → Bool
       && decide (0 ≤ o.width.getD 0)
   | .progressBar o => decide (0 < o.total.den) && decide (0 < o.completed.den) && decide (0 < o.time.den) && decide (0 ≤ o.width.getD 0)
   | .table o cols =>
-    !env.asciiOnly && !env.legacyWindows && !cols.isEmpty && (match o.box with | some i => (boxOf i).isSome | none => true)
+    (match o.box with | some i => (boxOf i).isSome && (boxOf (substituteBox env (o.safeBox.getD env.safeBox) i)).isSome | none => true)
       && optTextOk o.title && optTextOk o.caption
       && (match cols with
-          | [] => false
+          | [] => o.rowEndSection.isEmpty
           | (.mk _ _ _ cells) :: _ => cols.all (fun c => match c with | .mk _ _ _ cs => cs.length == cells.length)
                                         && o.rowEndSection.length == cells.length)
       && cols.all (fun c => match c with | .mk _ h f cs => staticOk env h && staticOk env f && cs.all (staticOk env))
   | .columns o items =>
-    !env.asciiOnly && !env.legacyWindows && o.lay.width.isNone && optTextOk o.title
+    decide (0 ≤ o.lay.width.getD 0) && optTextOk o.title
       && (match unpackPad o.lay.padding with | .ok _ => true | .error _ => false) && items.all (staticOk env)
   | .tree root => nodeOk env root
 partial def nodeOk (env : Env) : TNode → Bool
